@@ -45,8 +45,11 @@ __CPROVER_ensures(g_dq == vc_val(c, sa - sb + 1) && g_dr == vc_val(d, sb) && g_d
 /* ASSUMED: division of a digit vector by one digit; c may be a */
 void bn_div1_low_abs(dig_t *c, dig_t *d, const dig_t *a, dig_t b, size_t size)
 __CPROVER_requires(size >= 1 && size <= RLC_BN_SIZE && b != 0)
-__CPROVER_requires(VC_DIGS_FRESH(a, size) && VC_DIGS_FRESH(c, size) && __CPROVER_is_fresh(d, sizeof(dig_t)))
-VC_ASSIGNS(__CPROVER_object_upto(c, size * sizeof(dig_t)), *d, g_dq, g_da, g_d1r, g_d1b, g_div_calls)
+__CPROVER_requires(VC_DIGS_FRESH(a, size) && VC_DIGS_FRESH(c, RLC_BN_SIZE) && __CPROVER_is_fresh(d, sizeof(dig_t)))
+/* the frame is the whole digit array of the quotient (constant size): with the symbolic slice `size * sizeof(dig_t)` cbmc 6.11 did NOT havoc the
+   quotient in this replaced contract - the quotient silently stayed the dividend and every path with another quotient was cut (found by seeded
+   change C01-16; probes in DESIGN P37).  A wider assumed frame is a weaker assumption about the kernel. */
+VC_ASSIGNS(__CPROVER_object_upto(c, RLC_BN_SIZE * sizeof(dig_t)), *d, g_dq, g_da, g_d1r, g_d1b, g_div_calls)
 __CPROVER_ensures(g_div_calls == __CPROVER_old(g_div_calls) + 1 && g_da == VC_VAL_OLD(a, size) && g_d1b == b)
 __CPROVER_ensures(g_dq == vc_val(c, size) && *d == g_d1r && g_d1r < b && g_dq <= g_da)
 ;
